@@ -211,8 +211,15 @@ def validate_trace(pid, module, trace_path, group_key=None, nshards=8, lib="num_
         shutil.copy(trace_path, os.path.join(d, "trace.ndjson"))
         shards = [(d, 1, nlines)]
     procs = []
+    open_ids = sorted({k["id"] for k in load_known() if k.get("status") == "open" and k.get("property") == pid})
     for d, first, n in shards:
         stage_specs(d, extra_files)
+        # Dev_* deviations of the trace spec are enabled only for findings listed (open) in known_findings.jsonl
+        cfgp = os.path.join(d, module + ".cfg")
+        if os.path.exists(cfgp):
+            c = open(cfgp).read()
+            c = c.replace("KNOWN = {}", "KNOWN = {%s}" % ", ".join('"%s"' % i for i in open_ids))
+            open(cfgp, "w").write(c)
         meta = os.path.join(d, "meta")
         cmd = ["timeout", str(timeout), "java", "-Xss512m", "-Xmx" + heap, "-XX:+UseParallelGC",
                "-DTLA-Library=" + os.path.join(SPEC, lib), "-cp", JAR, "tlc2.TLC", "-workers", "1",
